@@ -171,7 +171,9 @@ class Policy:
                 if self._hostkey_sizes is None:
                     self._hostkey_sizes = {}
 
-                self._hostkey_sizes[hostkey_type] = {'hostkey_size': hostkey_size, 'ca_key_type': '', 'ca_key_size': 0}
+                # Keep the CA details when this type's 'cakey_size_*' directive came first.
+                previous = self._hostkey_sizes.get(hostkey_type, {})
+                self._hostkey_sizes[hostkey_type] = {'hostkey_size': hostkey_size, 'ca_key_type': previous.get('ca_key_type', ''), 'ca_key_size': previous.get('ca_key_size', 0)}
 
             elif key.startswith('cakey_size_'):  # Old host key size format.
                 print(Policy.WARNING_DEPRECATED_DIRECTIVES, file=self._warning_target)  # Warn the user that the policy file is using deprecated directives.
@@ -185,6 +187,11 @@ class Policy:
 
                 if self._hostkey_sizes is None:
                     self._hostkey_sizes = {}
+
+                # The host key size belonging to this CA key size is the one given by this host key type's own 'hostkey_size_*' directive (and not whatever directive happened to precede this one).
+                hostkey_size = 0
+                if hostkey_type in self._hostkey_sizes:
+                    hostkey_size = cast(int, self._hostkey_sizes[hostkey_type]['hostkey_size'])
                 self._hostkey_sizes[hostkey_type] = {'hostkey_size': hostkey_size, 'ca_key_type': ca_key_type, 'ca_key_size': ca_key_size}
 
             elif key == 'host_key_sizes':  # New host key size format.
